@@ -242,6 +242,7 @@ class SpliceGen(grec.Gen):
         super().__init__(rng, profile, features)
         self.nmarks = 0
         self.mark_section = []     # marker number -> index of its section
+        self.mark_info = []        # marker number -> steps / text blocks before it in its section, past sections
 
     def build_step(self, st):
         pieces = super().build_step(st)
@@ -249,6 +250,10 @@ class SpliceGen(grec.Gen):
         m = MARK % self.nmarks
         self.nmarks += 1
         self.mark_section.append(st["done_sections"])
+        cur = st["cur_content"]
+        self.mark_info.append({"prev_steps": sum(1 for b in cur if b["type"] == "step"),
+                               "prev_texts": sum(1 for b in cur if b["type"] == "text"),
+                               "done_sections": st["done_sections"]})
         piece = ("t", m, m)
         sps = [i for i, p in enumerate(pieces) if p[0] == "sp"]
         k = r.random()
@@ -260,8 +265,13 @@ class SpliceGen(grec.Gen):
         return pieces[:i + 1] + [piece, ("sp",)] + pieces[i + 1:]
 
 
+# an unused marker becomes a plain word: removing it could leave a comment-only line, which is a block
+# boundary (parser/mod.rs:205-212) and would change the number of steps the generator counted
+FILL = "then"
+
+
 def strip_marks(text):
-    return MARK_RE.sub("", text)
+    return MARK_RE.sub(FILL, text)
 
 
 def base_ok(exp, ext):
@@ -421,6 +431,8 @@ def splice(rng, entry, ext, want=None):
             sofar += lead + btxt + mb_after + post_def
         elif a_at is not None and k == a_at:
             sofar += entry.a
+        else:
+            sofar += FILL
         pos = m.end()
     sofar += text[pos:]
     full = sofar
@@ -579,6 +591,8 @@ def double_splice(rng, ea, ep, ext, analysis_first):
             t, off = _inline(en)
             where[en.id] = (len(sofar) + off, len(sofar) + off + len(en.b))
             sofar += t
+        if k not in plan:
+            sofar += FILL
         pos = m.end()
     sofar += text[pos:]
     full = sofar
@@ -663,3 +677,87 @@ def wf_components_block(rng, ext):
     full = base[:pos] + group + base[pos:]
     return {"text": full, "base": base, "tags": ["components-block", tag, "sep=%r" % sep],
             "old_style": info["old_style_meta"], "pair": [on, body]}
+
+
+
+# ---------------------------------------------------------------------------------------------
+# intermediate references at the boundary, in sections that also hold `> text` blocks
+#
+# extensions.md: "Only past steps from the current section can be referenced. ... Text steps can't be
+# referenced. In relative references, text steps are ignored."  resolve_intermediate_ref
+# (event_consumer.rs:811-899) counts steps only: `(N)` / `(~N)` with N one more than the number of
+# previous steps of the section, `(=N)` / `(=~N)` with N one more than the number of previous sections,
+# are out of bounds (error), however many text blocks the section has; N equal to that number is fine.
+INTER_KINDS = {"step_abs": "(%d)", "step_rel": "(~%d)", "sec_abs": "(=%d)", "sec_rel": "(=~%d)"}
+INTER_SRC = {"step_abs": EC_RS + ":830", "step_rel": EC_RS + ":852", "sec_abs": EC_RS + ":867", "sec_rel": EC_RS + ":884"}
+
+
+def inter_boundary_splice(rng, ext, kind, how):
+    """how: 'boundary' (one past the last valid target), 'far' (well out of range: both errors), or
+    'valid' (the last valid target: a well-formed recipe).  `> text` blocks are inserted before the
+    referring step, in its section.  Returns None when 'valid' has no target."""
+    r = rng
+    text, exp, info, g = gen_base(r, ext)
+    n = g.nmarks
+    if n == 0:
+        return None
+    # prefer a marker with steps before it in its section, so that text blocks can sit between steps
+    order = list(range(n))
+    r.shuffle(order)
+    order.sort(key=lambda k: -min(g.mark_info[k]["prev_steps"], 1) if r.random() < 0.7 else 0)
+    tgt = order[0]
+    mi = g.mark_info[tgt]
+    count = mi["prev_steps"] if kind.startswith("step") else mi["done_sections"]
+    if how == "valid":
+        if count == 0:
+            return None
+        val = count if r.random() < 0.6 else r.randint(1, count)
+    elif how == "boundary":
+        val = count + 1
+    else:
+        val = count + r.choice([2, 3, 5, 40])
+    # `> text` blocks before the referring step, inside its section
+    mpos = text.index(MARK % tgt)
+    sec_start = max(text.rfind("\n=", 0, mpos) + 1, 0)
+    if text.startswith("=") and "\n=" not in text[:mpos]:
+        sec_start = 0
+    cands = [q for q, tag in safe_line_starts(text)
+             if tag in ("top", "between-blocks", "after-section") and sec_start <= q < mpos
+             and not text[q:q + 1] == "=" and "\n=" not in text[q:mpos]]
+    # a position right after the section line is fine, a position before it belongs to the previous section
+    cands = [q for q in cands if not (q == sec_start and text[q:q + 1] == "=")]
+    ntext = 0
+    if cands and r.random() < 0.85:
+        for q in sorted(r.sample(cands, min(len(cands), r.randint(1, 3))), reverse=True):
+            note = "> " + r.choice(["zz note", "zz remember to preheat", "zz café"]) + "\n\n"
+            text = text[:q] + note + text[q:]
+            ntext += 1
+    btxt = "@&" + (INTER_KINDS[kind] % val) + r.choice(["zzdough", "zz rested dough"]) + "{}"
+    if r.random() < 0.2:
+        btxt = btxt.replace("@&", "@?&") if r.random() < 0.5 else btxt.replace("(", "( ").replace(")", " )")
+    mb = r.choice(MB) if r.random() < 0.25 else ""
+    sofar = ""
+    pos = 0
+    a = b = None
+    for m in MARK_RE.finditer(text):
+        sofar += text[pos:m.start()]
+        if int(m.group(1)) == tgt:
+            a = blen(sofar) + blen(mb)
+            b = a + blen(btxt)
+            sofar += mb + btxt
+        else:
+            sofar += FILL
+        pos = m.end()
+    sofar += text[pos:]
+    tags = ["step", "inter-" + how, kind, "text-blocks-before=%d" % (mi["prev_texts"] + ntext),
+            "steps-before=%d" % mi["prev_steps"], "sections-before=%d" % mi["done_sections"]]
+    return {"text": sofar, "a": a, "b": b, "tags": tags, "old_style": info["old_style_meta"],
+            "texts_before": mi["prev_texts"] + ntext, "construct": btxt, "base": strip_marks(text)}
+
+
+for _k in INTER_KINDS:
+    for _h in ("boundary", "far"):
+        BY_ID["inter_%s_%s" % (_h, _k)] = Entry("inter_%s_%s" % (_h, _k), "out-of-range intermediate reference",
+                                              "@&" + INTER_KINDS[_k].replace("%d", "N") + "zzdough{}", "e", "Analysis",
+                                              X_INTER, INTER_SRC[_k],
+                                              why="N = steps/sections before + 1 (boundary) or more, `> text` blocks before")
